@@ -225,6 +225,21 @@ func (s *Sim) buildPoolTx(kind int) *MTx {
 		}
 		p.Outs = append(p.Outs, &wire.TxOut{Value: v, PkScript: w.script(kind, c.Intn(len(w.Keys), "ptx-out-key"))})
 	}
+	if s.heavySigops && total-fee > 2000 {
+		// a transaction at (or just below) the per-transaction sigop cost
+		// maximum: one bare output of 248..250 OP_CHECKMULTISIG (20 legacy
+		// sigops each, x4 cost), the rest to an anyone-can-spend output
+		k := 250 - simkit.Pick(c, "heavy-k", 7, 2, 1)
+		if fee < 2000 {
+			fee = 2000 // make sure the relay policy is not what keeps it out
+		}
+		pk := make([]byte, k)
+		for i := range pk {
+			pk[i] = txscript.OP_CHECKMULTISIG
+		}
+		p.Outs = []*wire.TxOut{{Value: 600, PkScript: pk}, {Value: total - fee - 600, PkScript: w.script(KTrue, 0)}}
+		s.r.Probe("heavy-sigop-tx-built")
+	}
 	// lock time at the boundary of finality for the next block
 	switch simkit.Pick(c, "ptx-lock", 8, 1, 1) {
 	case 1:
@@ -658,10 +673,18 @@ func (s *Sim) CheckMinable() (*MBlock, []*MTx) {
 		return nil, nil
 	}
 	tip := s.n.Tip()
+	var cost int64
 	for _, t := range txs {
 		if f, ok := s.feeOf(t); ok {
 			t.Fee = f
 		}
+		cost += s.sigOpCostModel(t, true)
+	}
+	if cost > 79000 {
+		// more signature operations than one block may carry: the pooled set
+		// is not expected to fit a single block
+		r.Probe("minable-skipped:more-than-one-block-of-sigops")
+		return nil, nil
 	}
 	ts := s.adjNow()
 	blk := s.w.Build(tip, BlockOpts{Txs: txs, TsAbs: ts, Dry: true})
